@@ -116,13 +116,15 @@ func (f *kafkaLikeInput) Start(_ pipeline.AnyConfig, p *pipeline.InputPluginPara
 }
 
 // scripted action: the i-th character of the event's "ops" field is the op for action i:
-//   p pass | d discard | b break | h hold (start of a run) | c continue (collapse while holding) | s split into 2 children
+//
+//	p pass | d discard | b break | h hold (start of a run) | c continue (collapse while holding) | s split into 2 children
+//
 // it follows the protocol of the join plugin: a non-continuing event or a time-out flushes the held event via Propagate.
 type fakeAction struct {
-	log   *caseLog
-	idx   int
-	ctl   pipeline.ActionPluginController
-	held  *pipeline.Event
+	log    *caseLog
+	idx    int
+	ctl    pipeline.ActionPluginController
+	held   *pipeline.Event
 	jitter int
 }
 
@@ -201,14 +203,14 @@ type outCfg struct {
 }
 
 type fakeOutput struct {
-	log   *caseLog
-	cfg   outCfg
-	ctl   pipeline.OutputPluginController
-	add   func(*pipeline.Event)
-	stop  func()
-	batch *pipeline.Batcher
-	dq    *pipeline.Batcher
-	cancel context.CancelFunc
+	log       *caseLog
+	cfg       outCfg
+	ctl       pipeline.OutputPluginController
+	add       func(*pipeline.Event)
+	stop      func()
+	batch     *pipeline.Batcher
+	dq        *pipeline.Batcher
+	cancel    context.CancelFunc
 	failMu    sync.Mutex
 	failsLeft map[int64]int
 	router    *pipeline.Router
@@ -340,12 +342,14 @@ func (o *fakeOutput) Stop() {
 func (o *fakeOutput) Out(e *pipeline.Event) { o.add(e) }
 
 // RunCase executes one case.
-//   case = (cfg feeders plan)
-//   cfg  = (procs pool capacity eventTimeoutMs nActions outKind workers batchCount flushMs retry deadq spread)
-//          procs: 1 = DisableParallelism, else 2*GOMAXPROCS at Start (harness sets GOMAXPROCS = procs/2 during Start)
-//          pool: 0 low-memory (default) | 1 standard
-//   feeders = ((op ...) ...) one goroutine each; op = (0 src offset #json) In | (1 ms) sleep
-//   plan = ((delayMs failures) ...) per main batch seq
+//
+//	case = (cfg feeders plan)
+//	cfg  = (procs pool capacity eventTimeoutMs nActions outKind workers batchCount flushMs retry deadq spread)
+//	       procs: 1 = DisableParallelism, else 2*GOMAXPROCS at Start (harness sets GOMAXPROCS = procs/2 during Start)
+//	       pool: 0 low-memory (default) | 1 standard
+//	feeders = ((op ...) ...) one goroutine each; op = (0 src offset #json) In | (1 ms) sleep
+//	plan = ((delayMs failures) ...) per main batch seq
+//
 // observable = ((objkind objidx kind a b c d) ...) with pointers replaced by indices of first appearance.
 func RunCase(cs hx.Sx) hx.Sx {
 	installHooks()
@@ -476,10 +480,31 @@ func RunCase(cs hx.Sx) hx.Sx {
 	case <-time.After(20 * time.Second):
 		log.add(p, LStuck, 2, p.VerifPoolInUse(), p.VerifPoolWaiters(), 0)
 	}
-	// quiescence: pool in-use back to zero; bounded by event time-out + streamer heartbeat (200 ms) + flush + retries
-	deadline := time.Now().Add(time.Duration(2500+6*evTimeout+4*oc.flushMs) * time.Millisecond)
-	for p.VerifPoolInUse() != 0 && time.Now().Before(deadline) {
-		time.Sleep(3 * time.Millisecond)
+	// quiescence: pool in-use back to zero. The wait is progress based, so that a loaded machine
+	// cannot turn a slow run into a false "stuck": the run counts as wedged only when NO label other
+	// than heartbeat ticks was emitted for a whole idle window (event time-out + several heartbeat
+	// periods + flush + retry pauses) while events are still in use; hard cap 60 s.
+	idleWindow := time.Duration(3000+8*evTimeout+6*oc.flushMs) * time.Millisecond
+	hardCap := time.Now().Add(60 * time.Second)
+	progress := func() int {
+		log.mu.Lock()
+		defer log.mu.Unlock()
+		n := 0
+		for _, l := range log.labels {
+			if l.kind != pipeline.VtBatchTick && l.kind != pipeline.VtBatchNotReady && l.kind != pipeline.VtBatchFree {
+				n++
+			}
+		}
+		return n
+	}
+	lastN, lastChange := progress(), time.Now()
+	for p.VerifPoolInUse() != 0 && time.Now().Before(hardCap) {
+		time.Sleep(5 * time.Millisecond)
+		if n := progress(); n != lastN {
+			lastN, lastChange = n, time.Now()
+		} else if time.Since(lastChange) > idleWindow {
+			break
+		}
 	}
 	time.Sleep(5 * time.Millisecond)
 	inUse, waiters := p.VerifPoolInUse(), p.VerifPoolWaiters()
